@@ -1,9 +1,7 @@
 // ---- ghost vocabulary for the char-wise double array ----
-spec fn pow2(x: u32) -> bool { x > 0 && x & sub(x, 1) == 0 }
+//@include ghost_bits_cw.rs
 
-spec fn map_code(table: Seq<u32>, c: u32) -> Option<u32> {
-    if c < table.len() && table[c as int] != u32::MAX { Some(table[c as int]) } else { None }
-}
+//@include ghost_mapcode.rs
 
 // what the comments in charwise.rs claim: the array length is a multiple of a power of two that bounds every code
 spec fn cw_safe_bl(st: Seq<State>, table: Seq<u32>, bl: u32) -> bool {
